@@ -372,4 +372,37 @@ theorem joinSlash_length_filter (p : Bytes → Bool) (cs : List Bytes) :
       | nil => simp [joinSlash]
       | cons d r' => simp at ih ⊢; omega
 
+/-- splitting distributes over a slash, wherever it stands -/
+theorem splitSlash_at_slash (a b : Bytes) : splitSlash (a ++ SL :: b) = splitSlash a ++ splitSlash b := by
+  induction a with
+  | nil => simp [splitSlash]
+  | cons x a ih =>
+    by_cases hx : x = SL
+    · subst hx; simp only [List.cons_append, splitSlash, if_true, ih]
+    · simp only [List.cons_append, splitSlash, if_neg hx, ih]
+      cases hsp : splitSlash a with
+      | nil => exact absurd hsp (splitSlash_ne_nil _)
+      | cons h r => simp
+
+theorem joinSlash_filter_sublist (p : Bytes → Bool) (cs : List Bytes) :
+    (joinSlash (cs.filter p)).Sublist (joinSlash cs) := by
+  induction cs with
+  | nil => simp
+  | cons c r ih =>
+    by_cases hp : p c = true
+    · rw [List.filter_cons_of_pos hp, joinSlash_cons, joinSlash_cons]
+      cases r with
+      | nil => simp
+      | cons d r' =>
+        cases hf : (d :: r').filter p with
+        | nil => simp
+        | cons e r'' =>
+          rw [hf] at ih
+          exact List.Sublist.append (List.Sublist.refl _) (List.Sublist.cons_cons _ ih)
+    · rw [List.filter_cons_of_neg hp, joinSlash_cons]
+      cases r with
+      | nil => simp [joinSlash]
+      | cons d r' => exact (ih.cons _).trans (List.sublist_append_right _ _)
+
+
 end Sqfs.Path
